@@ -17,6 +17,23 @@ type LoadOpts struct {
 	Exclude     []iface.IPFSLogEntry
 	ShouldExcl  iface.ExcludeFunc
 	TimeoutMs   int
+	Progress    chan iface.IPFSLogEntry // FetchOptions.ProgressChan
+	NoExplicit  bool                    // never turn "no limit" into the explicit -1
+}
+
+// explicitAll counts loads process-wide: every third load that has no length limit says so EXPLICITLY (-1, the
+// documented "everything" value) instead of leaving the limit out. The two spellings must load the same.
+var explicitAll int64
+
+func (lo *LoadOpts) length() *int {
+	if lo.Length != nil || lo.NoExplicit {
+		return lo.Length
+	}
+	if atomic.AddInt64(&explicitAll, 1)%3 == 0 {
+		m := -1
+		return &m
+	}
+	return nil
 }
 
 var Loaders = []string{"manifest", "json", "entries", "hash"}
@@ -74,7 +91,7 @@ func (w *World) LoadManifest(c cid.Cid, ident int, lo *LoadOpts) (*ipfslog.IPFSL
 		opts.ID = ""
 	}
 	return ipfslog.NewFromMultihash(w.Ctx, w.Store.API(), w.Idents[ident], c, opts,
-		&ipfslog.FetchOptions{Length: lo.Length, Concurrency: lo.Concurrency, Exclude: lo.Exclude, ShouldExclude: lo.ShouldExcl, Timeout: dur(lo.TimeoutMs)})
+		&ipfslog.FetchOptions{Length: lo.length(), Concurrency: lo.Concurrency, Exclude: lo.Exclude, ShouldExclude: lo.ShouldExcl, Timeout: dur(lo.TimeoutMs), ProgressChan: lo.Progress})
 }
 
 func (w *World) LoadJSON(j *iface.JSONLog, ident int, lo *LoadOpts) (*ipfslog.IPFSLog, error) {
@@ -93,19 +110,19 @@ func (w *World) LoadJSON(j *iface.JSONLog, ident int, lo *LoadOpts) (*ipfslog.IP
 				_, _ = ipfslog.NewFromJSON(wp.Ctx, wp.Store.API(), wp.Idents[0], pl.ToJSONLog(), wp.LogOpts(wp.LogID), w.sharedFetch)
 			}
 		}
-		w.sharedFetch.Length, w.sharedFetch.Concurrency, w.sharedFetch.Timeout = lo.Length, lo.Concurrency, dur(lo.TimeoutMs)
+		w.sharedFetch.Length, w.sharedFetch.Concurrency, w.sharedFetch.Timeout, w.sharedFetch.ProgressChan = lo.length(), lo.Concurrency, dur(lo.TimeoutMs), lo.Progress
 		return ipfslog.NewFromJSON(w.Ctx, w.Store.API(), w.Idents[ident], j, w.loaderOpts(), w.sharedFetch)
 	}
 	return ipfslog.NewFromJSON(w.Ctx, w.Store.API(), w.Idents[ident], j, w.loaderOpts(),
-		&entry.FetchOptions{Length: lo.Length, Concurrency: lo.Concurrency, Timeout: dur(lo.TimeoutMs)})
+		&entry.FetchOptions{Length: lo.length(), Concurrency: lo.Concurrency, Timeout: dur(lo.TimeoutMs), ProgressChan: lo.Progress})
 }
 
 func (w *World) LoadEntries(heads []iface.IPFSLogEntry, ident int, lo *LoadOpts) (*ipfslog.IPFSLog, error) {
 	return ipfslog.NewFromEntry(w.Ctx, w.Store.API(), w.Idents[ident], append([]iface.IPFSLogEntry(nil), heads...), w.loaderOpts(),
-		&entry.FetchOptions{Length: lo.Length, Concurrency: lo.Concurrency, Exclude: lo.Exclude, Timeout: dur(lo.TimeoutMs)})
+		&entry.FetchOptions{Length: lo.length(), Concurrency: lo.Concurrency, Exclude: lo.Exclude, Timeout: dur(lo.TimeoutMs), ProgressChan: lo.Progress})
 }
 
 func (w *World) LoadHash(c cid.Cid, ident int, lo *LoadOpts) (*ipfslog.IPFSLog, error) {
 	return ipfslog.NewFromEntryHash(w.Ctx, w.Store.API(), w.Idents[ident], c, w.loaderOpts(),
-		&ipfslog.FetchOptions{Length: lo.Length, Concurrency: lo.Concurrency, Exclude: lo.Exclude, ShouldExclude: lo.ShouldExcl, Timeout: dur(lo.TimeoutMs)})
+		&ipfslog.FetchOptions{Length: lo.length(), Concurrency: lo.Concurrency, Exclude: lo.Exclude, ShouldExclude: lo.ShouldExcl, Timeout: dur(lo.TimeoutMs), ProgressChan: lo.Progress})
 }
